@@ -1598,7 +1598,8 @@ impl<'a> Visitor<'a, '_, Error> for JSONValidator<'a> {
               }
               _ => false,
             };
-            if differs_by_class {
+            // (arrays and objects are not instances of a text or numeric target)
+            if differs_by_class && !matches!(self.json, Value::Array(_) | Value::Object(_)) {
               return Ok(());
             }
 
